@@ -331,6 +331,7 @@ impl VarDoc {
         s.push_str("##INFO=<ID=AF,Number=A,Type=Float,Description=\"Allele frequency\">\n");
         s.push_str("##INFO=<ID=DB,Number=0,Type=Flag,Description=\"dbSNP membership\">\n");
         s.push_str("##INFO=<ID=END,Number=1,Type=Integer,Description=\"End position\">\n");
+        s.push_str("##INFO=<ID=NOTE,Number=1,Type=String,Description=\"Free text\">\n");
         s.push_str("##FILTER=<ID=PASS,Description=\"All filters passed\">\n");
         s.push_str("##FILTER=<ID=q10,Description=\"Quality below 10\">\n");
         s.push_str("##FILTER=<ID=s50,Description=\"Less than half of samples have data\">\n");
@@ -385,6 +386,10 @@ impl VarDoc {
             }
             if r.end {
                 info.push(format!("END={}", pos as usize + ref_len - 1 + (rng.next() % 200) as usize));
+            }
+            // free text, UTF-8 (multi-byte characters are what a chunked source can split)
+            if r.seed % 5 == 0 {
+                info.push(format!("NOTE={}", ["é", "日本", "x𝄞y", "ßß", "naïve_call"][(r.seed as usize / 5) % 5]));
             }
             let info = if info.is_empty() { ".".to_string() } else { info.join(";") };
             s.push_str(&format!(
